@@ -1,1 +1,17 @@
-
+import SphericalVerif.Props.C15
+#print axioms C15.init_guard_iff
+#print axioms C15.init_mp_max
+#print axioms C15.init_invariant
+#print axioms C15.d_guard_iff
+#print axioms C15.D_guard_iff
+#print axioms C15.D_guard_size
+#print axioms C15.sYlm_guard_iff
+#print axioms C15.rotate_guard_iff
+#print axioms C15.evaluate_guard_iff
+#print axioms C15.split_workspace_guard_iff
+#print axioms C15.split_workspace_parts
+#print axioms C15.new_workspace_ok
+#print axioms C15.hlookup_in_range
+#print axioms C15.guard_sound_sYlm
+#print axioms C15.guard_sound_evaluate
+#print axioms C15.guard_sound_D
